@@ -38,6 +38,7 @@ def check(ctx):
     ctx.floor('A5inv', 2, 'writers of state read by cached functions')
     from ..rules import shared as _shm
     _shm.check_class_level_containers(ctx)
+    _shm.check_degree_recompute(ctx)   # the degree cached on a shared grouping node is recomputed before it is read
     _shm.check_getstate_drops(ctx)     # pickle round trip: only rebuildable caches are left out of the state
     # the record of automatically taken choices is class-level state: it is read only right after the apply that wrote it
     from . import c07 as _c07
